@@ -22,7 +22,7 @@ ASSUMPTIONS = [
     "coverage and exclusivity by R3 (vf/ref/acl.py); cases where the ideal coverage and the implementation's documented winner rule disagree (known findings of C06) are skipped and counted",
     "programs yield rows in negated form only in the dedicated scenario (a negated line owned literally by one generator and through its positive rule by another)",
 ]
-FLOORS = {"quick": {"runs": 1200, "outcome_ok": 300, "outcome_generator_error": 150, "outcome_not_exclusive": 60, "block_contexts_entered": 2000, "annotated_runs": 80, "annotated_rows": 200, "cases_with_a_silent_generator": 300, "cases_with_three_differently_written_rules": 300, "comment_rows_yielded_inside_blocks": 200, "acl_comment_lines": 3000, "rules_mentioning_interface_not_at_start": 4000, "multi_line_yields_all_inside_the_first_line": 500, "cases_with_device_rows_claimed_by_several_generators": 800, "cases_with_a_negated_line_owned_literally_and_through_its_positive_rule": 300, "reused_generator_object_runs": 150, "tuple_yields_with_an_inline_list": 300, "tuple_yields_with_a_lazy_iterable": 300, "cases_with_a_global_and_a_nested_local_rule_of_one_text": 300, "cases_with_a_line_holding_an_unusual_separator_character": 300},
+FLOORS = {"quick": {"runs": 1200, "outcome_ok": 300, "outcome_generator_error": 150, "outcome_not_exclusive": 60, "block_contexts_entered": 2000, "annotated_runs": 80, "annotated_rows": 200, "cases_with_a_silent_generator": 300, "cases_with_three_differently_written_rules": 300, "comment_rows_yielded_inside_blocks": 200, "acl_comment_lines": 3000, "rules_mentioning_interface_not_at_start": 4000, "multi_line_yields_all_inside_the_first_line": 500, "cases_with_device_rows_claimed_by_several_generators": 800, "cases_with_a_negated_line_owned_literally_and_through_its_positive_rule": 300, "reused_generator_object_runs": 150, "tuple_yields_with_an_inline_list": 300, "tuple_yields_with_a_lazy_iterable": 300, "cases_with_a_global_and_a_nested_local_rule_of_one_text": 300, "cases_with_a_line_holding_an_unusual_separator_character": 300, "cases_on_brace_syntax_vendors": 300, "reused_generator_objects_whose_earlier_run_ended_inside_a_block": 60},
           "thorough": {"runs": 50000, "outcome_ok": 12000, "outcome_generator_error": 6000, "outcome_not_exclusive": 2500, "block_contexts_entered": 80000, "annotated_runs": 3000, "annotated_rows": 8000, "cases_with_a_silent_generator": 12000, "cases_with_three_differently_written_rules": 12000, "comment_rows_yielded_inside_blocks": 4000, "acl_comment_lines": 60000, "rules_mentioning_interface_not_at_start": 80000}}
 VENDORS = ["huawei", "cisco", "arista", "nexus"]
 HEADS = ["a", "b", "c", "interface", "router", "x", "ntp source-interface", "c passive-interface"]  # the word `interface` only makes a rule not deletable by default at its start
@@ -340,9 +340,11 @@ def exclusive_walk(tree, locals_, globals_, prefix, path=()):
     return None
 
 
-def make_case(seed, silent=False, ranked=False, negx=False, globx=False, oddx=False):
+def make_case(seed, silent=False, ranked=False, negx=False, globx=False, oddx=False, bracev=False):
     rng = random.Random(seed)
     vname = rng.choice(VENDORS)
+    if bracev:
+        vname = random.Random(seed ^ 0xB2ACE).choice(["nokia", "juniper", "ribbon"])   # (their device dumps use braces; generators write indented blocks for them all the same)
     ngen = rng.choice([1, 2, 2, 3, 4])
     gens = []
     for i in range(ngen):
@@ -464,12 +466,14 @@ def add_legacy(seed, gens):
     return "legacy k1\nlegacy k2 x\n" if lrng.random() < 0.7 else "legacy k1\n"
 
 
-def check_case(seed, acc, silent=False, ranked=False, negx=False, globx=False, oddx=False):
+def check_case(seed, acc, silent=False, ranked=False, negx=False, globx=False, oddx=False, bracev=False):
     from annet.generators import GeneratorError
     from annet.annlib.patching import AclNotExclusiveError, AclError
     from annet.vendors import registry_connector
     from vf import harness_gen as H
-    vname, gens, rng = make_case(seed, silent, ranked, negx, globx, oddx)
+    vname, gens, rng = make_case(seed, silent, ranked, negx, globx, oddx, bracev)
+    if bracev:
+        acc.count("cases_on_brace_syntax_vendors")
     if oddx:
         acc.count("cases_with_a_line_holding_an_unusual_separator_character")
     if globx:
@@ -493,7 +497,7 @@ def check_case(seed, acc, silent=False, ranked=False, negx=False, globx=False, o
         text = render_indented(g["acl"], rng)
         texts.append(text)
         real.append(H.make_partial(g["name"], vname, text, make_run(g["program"], counter)))
-    w = {"seed": seed, "silent": silent, "ranked": ranked, "negx": negx, "globx": globx, "oddx": oddx, "vendor": vname, "generators": [{"name": g["name"], "program": g["program"], "acl": A.render(g["acl"]), "acl_mode": g["mode"]} for g in gens]}
+    w = {"seed": seed, "silent": silent, "ranked": ranked, "negx": negx, "globx": globx, "oddx": oddx, "bracev": bracev, "vendor": vname, "generators": [{"name": g["name"], "program": g["program"], "acl": A.render(g["acl"]), "acl_mode": g["mode"]} for g in gens]}
     exp = expected_outcome(gens, prefix)
     if exp[0] == "skip":
         acc.count("skipped_known_acl_mechanism")
@@ -542,6 +546,13 @@ def check_case(seed, acc, silent=False, ranked=False, negx=False, globx=False, o
             second = make_run(gens[i]["program"], [0])
 
             def run(self, device):
+                if phase["n"] == 0 and (seed // 4) % 2:
+                    # the earlier run ends in the middle of a block: the generator finds out that the device is not one of its own
+                    from annet.generators import NotSupportedDevice
+                    with self.block("aborted", "run"):
+                        yield "x 1"
+                        with self.block("deeper"):
+                            raise NotSupportedDevice("not this one")
                 yield from (first if phase["n"] == 0 else second)(self, device)
             return run
         real3 = [H.make_partial(g["name"], vname, t, switching(i)) for i, (g, t) in enumerate(zip(gens, texts))]
@@ -558,6 +569,8 @@ def check_case(seed, acc, silent=False, ranked=False, negx=False, globx=False, o
         except Exception as e:
             got3 = ("exception", "%s: %s" % (type(e).__name__, str(e)[:200]))
         acc.count("reused_generator_object_runs")
+        if (seed // 4) % 2:
+            acc.count("reused_generator_objects_whose_earlier_run_ended_inside_a_block")
         if got3[0] != "ok" or got3[1] != exp[1]:
             acc.violation("C10/generator-objects-remember-an-earlier-run", "generator objects that served another device before do not give this device the union of what they yield now",
                           dict(w, reused=list(got3), expected_tree=exp[1]))
@@ -594,7 +607,7 @@ def c10_rows(tree):
 
 def run_shard(spec, acc):
     if spec["mode"] == "replay":
-        check_case(spec["witness"]["seed"], acc, silent=bool(spec["witness"].get("silent")), ranked=bool(spec["witness"].get("ranked")), negx=bool(spec["witness"].get("negx")), globx=bool(spec["witness"].get("globx")), oddx=bool(spec["witness"].get("oddx")))
+        check_case(spec["witness"]["seed"], acc, silent=bool(spec["witness"].get("silent")), ranked=bool(spec["witness"].get("ranked")), negx=bool(spec["witness"].get("negx")), globx=bool(spec["witness"].get("globx")), oddx=bool(spec["witness"].get("oddx")), bracev=bool(spec["witness"].get("bracev")))
         return
     tier, k, n = spec["tier"], spec["shard"], spec["nshards"]
     total = 4000 if tier == "quick" else 80000
@@ -613,3 +626,5 @@ def run_shard(spec, acc):
             check_case(rng.randrange(1 << 48), acc, globx=True)
         if j % 5 == 1:
             check_case(rng.randrange(1 << 48), acc, oddx=True)
+        if j % 5 == 3:
+            check_case(rng.randrange(1 << 48), acc, bracev=True)
